@@ -121,3 +121,31 @@ class Design:
         for k, (a, b) in enumerate(zip(post, vpost)):
             if a != b and k not in clkidx:
                 raise MachineryError(f"fast/real stepper disagree after the edge on {self.sigs[k].backtrace[-1][0] if self.sigs[k].backtrace else k}: real {a} fast {b}")
+
+
+def cone_of_influence(D, roots):
+    """Over-approximate set of signals that can influence the (next) value of `roots`: every target of a top-level
+    statement depends on every signal mentioned in that statement (conditions included); closed transitively over
+    comb and sync statements.  Used to *check* declarations of feed-forward (projected) registers."""
+    from migen.fhdl.tools import list_signals as _ls, list_targets as _lt
+    dep = {}
+    def scan(stmts):
+        for st in stmts:
+            if isinstance(st, (list, tuple)):
+                scan(st)
+                continue
+            tg = _lt(st)
+            rd = _ls(st)
+            for t in tg:
+                dep.setdefault(t, set()).update(rd)
+    scan(D.f.comb)
+    for cd, st in D.f.sync.items():
+        scan(st)
+    seen, todo = set(), list(roots)
+    while todo:
+        s = todo.pop()
+        for r in dep.get(s, ()):
+            if r not in seen:
+                seen.add(r)
+                todo.append(r)
+    return seen
